@@ -182,12 +182,17 @@ impl Multi<'_> {
 }
 
 impl Multi<'_> {
-    /// global maximum of all scores minus the smallest row maximum
+    /// global maximum of all scores minus the smallest row log-sum-exp (linfa's clamp acts when this exceeds 34.54)
     pub fn max_row_deficit(&self, t: &[f64]) -> f64 {
-        let rowmax: Vec<f64> = (0..self.x.len()).map(|i| self.scores(t, i).iter().cloned().fold(f64::NEG_INFINITY, f64::max)).collect();
-        let g = rowmax.iter().cloned().fold(f64::NEG_INFINITY, f64::max);
-        let l = rowmax.iter().cloned().fold(f64::INFINITY, f64::min);
-        g - l
+        let hs: Vec<Vec<f64>> = (0..self.x.len()).map(|i| self.scores(t, i)).collect();
+        let g = hs.iter().flatten().cloned().fold(f64::NEG_INFINITY, f64::max);
+        let mut worst = 0.0f64;
+        for h in &hs {
+            let m = h.iter().cloned().fold(f64::NEG_INFINITY, f64::max);
+            let lse = m + h.iter().map(|v| (v - m).exp()).sum::<f64>().ln();
+            worst = worst.max(g - lse);
+        }
+        worst
     }
 }
 
